@@ -1,7 +1,8 @@
 /-
 Model of the hand-over of ONE apply task to a worker slot and of what the unexpected-death handler does when the
-worker in that slot is killed (comms.py add_apply_task 344-359, worker.py _handle_apply_pill 349-368 and run 134-181,
-pool.py _unexpected_death_handler).  The task travels as TWO queue entries: the APPLY pill, then the task.
+worker in that slot is killed (comms.py add_apply_task, worker.py _handle_apply_pill and run, pool.py
+_unexpected_death_handler, stop_and_join / join_task_queues).  The task travels as TWO queue entries: the APPLY pill,
+then the task; every entry a worker takes has to be acknowledged (task_done) before the queue can be joined.
 Core Lean only.
 -/
 namespace Mpire.Handover
@@ -10,37 +11,52 @@ namespace Mpire.Handover
 inductive Where
   | queuedBoth        -- pill and task are in the slot's queue
   | pillTaken         -- the worker took the pill; the task is still queued
-  | taskTaken         -- the worker took the task too, but has not announced the job yet
+  | taskTaken         -- the worker took the task too, but has not announced any job yet
+  | inInit            -- … and is running worker_init first: the job it announced is the INIT job
   | announced         -- signal_worker_working_on_job(job): the death handler can see which job it is
-  | done (ok : Bool)  -- the job's result was set (value, or an error)
+  | resultSent        -- the result is on the results queue (it will be set), the task entry is not acknowledged yet
+  | done (ok : Bool)  -- the job's result was set (value, or an error) and nothing of it is pending
   | ranAsChunk        -- a replacement worker took the bare task entry as if it were a chunk of a map call
   | lost              -- nobody holds the task any more and its result is not set
   deriving Repr, DecidableEq
 
 structure St where
-  w       : Where := .queuedBoth
-  alive   : Bool := true      -- the worker currently in the slot is alive
+  w          : Where := .queuedBoth
+  alive      : Bool := true      -- the worker currently in the slot is alive
+  unacked    : Nat := 0          -- queue entries some worker took and nobody acknowledged
+  poolFailed : Bool := false     -- the handler flagged the whole pool as failed (every pending apply task is failed)
+  hasInit    : Bool := false     -- the pool was started with a worker_init function
   deriving Repr, DecidableEq
 
 inductive Ev
-  | takePill | takeTask | announce | finish
+  | takePill | ackPill | takeTask | startInit | initDone | announce | sendResult | ack
   | kill                -- SIGKILL of the worker in the slot
   | deathHandled        -- the death handler ran: fails the announced job (if any) and starts a replacement worker
   | replacementTakes    -- the replacement worker reads the next queue entry
   deriving Repr, DecidableEq
 
 def step (s : St) : Ev → Option St
-  | .takePill => if s.alive ∧ s.w = .queuedBoth then some { s with w := .pillTaken } else none
-  | .takeTask => if s.alive ∧ s.w = .pillTaken then some { s with w := .taskTaken } else none
-  | .announce => if s.alive ∧ s.w = .taskTaken then some { s with w := .announced } else none
-  | .finish   => if s.alive ∧ s.w = .announced then some { s with w := .done true } else none
+  | .takePill => if s.alive ∧ s.w = .queuedBoth ∧ s.unacked = 0 then some { s with w := .pillTaken, unacked := 1 } else none
+  | .ackPill  => if s.alive ∧ s.w = .pillTaken ∧ s.unacked = 1 then some { s with unacked := 0 } else none
+  | .takeTask => if s.alive ∧ s.w = .pillTaken ∧ s.unacked = 0 then some { s with w := .taskTaken, unacked := 1 } else none
+  | .startInit => if s.alive ∧ s.w = .taskTaken ∧ s.hasInit then some { s with w := .inInit } else none
+  | .initDone => if s.alive ∧ s.w = .inInit then some { s with w := .taskTaken, hasInit := false } else none
+  | .announce => if s.alive ∧ s.w = .taskTaken ∧ ¬ s.hasInit then some { s with w := .announced } else none
+  | .sendResult => if s.alive ∧ s.w = .announced then some { s with w := .resultSent } else none
+  | .ack      => if s.alive ∧ s.w = .resultSent then some { s with w := .done true, unacked := s.unacked - 1 } else none
   | .kill     => if s.alive then some { s with alive := false } else none
   | .deathHandled =>
     if s.alive then none else
     match s.w with
-    | .announced => some { w := .done false, alive := true }    -- the job is failed with RuntimeError, worker replaced
-    | .taskTaken => some { w := .lost, alive := true }          -- nobody knows which job the dead worker held
-    | w => some { w := w, alive := true }
+    | .announced =>
+      -- the job is failed with RuntimeError, its queue entry is acknowledged on behalf of the dead worker, worker replaced
+      some { s with w := .done false, alive := true, unacked := s.unacked - 1 }
+    | .inInit =>
+      -- the announced job is the INIT job: map-style handling — the pool is flagged, every pending task is failed
+      some { s with w := .done false, alive := true, poolFailed := true }
+    | .taskTaken => some { s with w := .lost, alive := true }      -- nobody knows which job the dead worker held
+    | .resultSent => some { s with w := .done true, alive := true }  -- the result arrives; the entry stays unacknowledged
+    | _ => some { s with alive := true }
   | .replacementTakes =>
     if s.alive then
       match s.w with
@@ -55,5 +71,11 @@ def canComplete (s : St) : Bool :=
   match s.w with
   | .lost | .ranAsChunk => false
   | _ => true
+
+/-- stop_and_join can join the slot's task queue: nothing was taken without being acknowledged -/
+def joinable (s : St) : Bool := s.unacked = 0
+
+/-- the death stays isolated: the pool is not flagged as failed, the queue stays joinable, the job can complete -/
+def isolated (s : St) : Bool := canComplete s && joinable s && !s.poolFailed
 
 end Mpire.Handover
